@@ -26,7 +26,19 @@ arrays of rank 1-3 and lists, which are not scalars); EVERY tagged operator foun
 and, recursively, its operands) is observed and judged exactly like a directly constructed one, and the one the
 case names is compared with the model (o_scale: scalar check + HomothetyOperator with the factor's shape).
 
-Floating point: all parameters are small integers or dyadic rationals and x64 is enabled, so every
+(c) `prec` cases (maintainer round 3): every class with floating parameters (QU rotations and their transposed / lazy
+inverse forms, HWPOperator.create / LinearPolarizerOperator.create composites, HomothetyOperator, DiagonalOperator and its
+inverse, SymmetricBandToeplitzOperator with every method, ToastObservationMatrixOperator; the untagged
+BroadcastDiagonalOperator and DenseBlockDiagonalOperator) x jax_enable_x64 on / off x the dtype the parameters are held in
+(float32 / float64 JAX arrays, NumPy float64 arrays, Python floats) x the dtype of the data (float32 / float64), with
+parameters of LARGE magnitude using the whole float64 mantissa (unwrapped angles up to 1e5 .. 1e6 rad, scalars and diagonal
+values from 1e-5 to 1e6, bands of 1e5 .. 1e6).  The dense matrices of mv, op.T and (closed-form inverses) op.I are read off
+basis vectors of the DATA dtype and judged by the oracle only (the model has no dtypes): matrix = float64 NumPy closed form
+of the parameters the operator holds, every declared tag, dense(op.T) = M^T, dense(op.I) M = I, all at PREC_C = 64 rounding
+units of the coarser of (precision the parameters are evaluated in, precision of the data) - i.e. the rounding level of the
+data when the parameters are wider; the dtype of what mv returns is the data's (rotations, DESIGN 10.4) or the promoted one.
+
+Floating point: all parameters [of the cases other than (c)] are small integers or dyadic rationals and x64 is enabled, so every
 matrix is compared exactly; the only rounding is cos/sin of the rotation angles (k*pi/4 or
 atan2(S, C)/2 of a Pythagorean pair) and `jnp.linalg.inv` in AbstractLazyInverseOperator.as_matrix:
 those entries are snapped to the model's rational grid within 1e-9 (stated in the case: 'trig').
@@ -436,6 +448,9 @@ def observe(case):
     m = fx()
     if case['cls'] == 'derived':
         return observe_derived(case, m)
+    if case['cls'] == 'prec':
+        with m['jax'].enable_x64(bool(case['x64'])):  # (the process default, x64 on, is restored on exit)
+            return observe_prec(case, m)
     try:
         op = build(case, m)
     except Exception as e:  # noqa: BLE001
@@ -501,6 +516,233 @@ def observe_op(op, case, m):
         obs['T_class'] = T if isinstance(T, dict) else type(T).__name__
         obs['I_matrix'] = inv if isinstance(inv, dict) else attempt(lambda: exact(columns(inv, m)))
         obs['T_matrix'] = T if isinstance(T, dict) else attempt(lambda: exact(columns(T, m)))
+    return obs
+
+
+# ----------------------------------------------------------------------------------------------
+# (c) precision cases: x64 on/off x parameter dtype x data dtype x parameters of large magnitude
+#
+# A case {'cls': 'prec', 'op': ..., 'x64': bool, 'pdt': 'float32' | 'float64' | 'np64' | 'py', 'ddt': 'float32' |
+# 'float64', 'params': [float64 values], 'pshape': [...], ...} describes ONE operator whose floating parameters are
+# held in `pdt` (a JAX array of that dtype, a NumPy float64 array, a Python float) and whose input structure has
+# dtype `ddt`, built and applied with jax_enable_x64 = `x64`.  The observation is the dense matrix of mv, of op.T and
+# (closed-form inverses) of op.I, column by column on basis vectors of the DATA dtype, and the dtypes that come out.
+# The model cannot express dtypes: these cases are judged by the oracle only, against a float64 NumPy closed form.
+
+PREC_EPS = {'float32': 2.0**-23, 'float64': 2.0**-52}
+PREC_C = 64  # tolerated error, in units of the rounding level (measured on the pinned tree: < 1, see stats.prec_max_ulps)
+PREC_ROT = ('qurot', 'qurotT', 'lazy_qurot')
+PREC_MIXING = PREC_ROT + ('hwp_create', 'polarizer_create')  # (+ Toeplitz by FFT): every entry carries rounding
+
+
+def prec_eff(case):
+    """(dtype the parameters are evaluated in, dtype of the data) after JAX's canonicalisation."""
+    if not case['x64']:
+        return 'float32', 'float32'
+    return ('float32' if case['pdt'] == 'float32' else 'float64'), case['ddt']
+
+
+def prec_values(case):
+    """The parameter values the operator holds, exactly, as float64."""
+    import numpy as np
+
+    v = np.array(case['params'], dtype=np.float64).reshape(case['pshape'])
+    return v.astype(prec_eff(case)[0]).astype(np.float64)
+
+
+def prec_param(case, m):
+    jnp, np = m['jnp'], m['np']
+    v = np.array(case['params'], dtype=np.float64).reshape(case['pshape'])
+    if case['pdt'] == 'py':
+        return float(v.reshape(()))
+    if case['pdt'] == 'np64':
+        return v
+    return jnp.asarray(v, dtype=getattr(jnp, case['pdt']))
+
+
+def build_prec(case, m):
+    jax, np = m['jax'], m['np']
+    ddt = np.dtype(case['ddt'])
+    k = case['op']
+
+    def tree(shapes):
+        leaves = [jax.ShapeDtypeStruct(tuple(s), ddt) for s in shapes]
+        return leaves[0] if len(leaves) == 1 else {chr(97 + i): l for i, l in enumerate(leaves)}
+
+    def stokes():
+        return m['Stokes'].class_for(case['stokes']).structure_for(tuple(case['shape']), ddt)
+
+    if k in PREC_ROT:
+        op = m['qu'].QURotationOperator(prec_param(case, m), stokes())
+        return op if k == 'qurot' else op.T if k == 'qurotT' else m['core'].AbstractLazyInverseOrthogonalOperator(op)
+    if k == 'hwp_create':
+        return m['hwp'].HWPOperator.create(tuple(case['shape']), ddt, case['stokes'], angles=prec_param(case, m))
+    if k == 'polarizer_create':
+        return m['pol'].LinearPolarizerOperator.create(tuple(case['shape']), ddt, case['stokes'], angles=prec_param(case, m))
+    if k == 'hwp':
+        return m['hwp'].HWPOperator(stokes())
+    if k == 'identity':
+        return m['core'].IdentityOperator(tree(case['shapes']))
+    if k == 'homothety':
+        return m['core'].HomothetyOperator(prec_param(case, m), tree(case['shapes']))
+    if k in ('diagonal', 'diagonal_inverse'):
+        op = m['diagonal'].DiagonalOperator(prec_param(case, m), axis_destination=-1, in_structure=tree(case['shapes']))
+        return op.I if k == 'diagonal_inverse' else op
+    if k == 'broadcast_diagonal':
+        return m['diagonal'].BroadcastDiagonalOperator(prec_param(case, m), axis_destination=-1, in_structure=tree(case['shapes']))
+    if k == 'dense':
+        return m['dense'].DenseBlockDiagonalOperator(prec_param(case, m), tree([[case['pshape'][1]]]), 'ij,j->i')
+    if k == 'toeplitz':
+        return m['toep'].SymmetricBandToeplitzOperator(prec_param(case, m), tree([case['shape']]), method=case['method'])
+    if k == 'obs_matrix':
+        from scipy.sparse import csr_matrix
+
+        from furax.toast.obs_matrix import ToastObservationMatrixOperator
+
+        d = Path(tempfile.gettempdir()) / 'C08' / 'npz'
+        d.mkdir(parents=True, exist_ok=True)
+        path = d / f'prec-{os.getpid()}-{lib.case_id(case)}.npz'
+        a = csr_matrix(np.array(case['params'], dtype=np.float64).reshape(case['pshape']).astype(np.dtype(case['pdt'])))
+        np.savez(path, format='csr', data=a.data, indices=a.indices, indptr=a.indptr, shape=np.array(a.shape))
+        try:
+            return ToastObservationMatrixOperator(path)
+        finally:
+            path.unlink()
+    raise ValueError(f'unknown precision case {k}')
+
+
+def prec_rotation(case, np):
+    """[[cos 2a, -sin 2a], [sin 2a, cos 2a]] on the (Q, U) pair of every sample, the identity on I and V."""
+    kind, shape = case['stokes'], tuple(case['shape'])
+    N, L = math.prod(shape), len(kind)
+    R = np.eye(L * N)
+    ql = kind.find('Q')
+    if ql < 0:
+        return R
+    a = np.broadcast_to(prec_values(case), shape).ravel()
+    c, s = np.cos(2 * a), np.sin(2 * a)
+    for t in range(N):
+        q, u = ql * N + t, (ql + 1) * N + t
+        R[q, q], R[q, u], R[u, q], R[u, u] = c[t], -s[t], s[t], c[t]
+    return R
+
+
+def prec_hwp(case, np):
+    N = math.prod(case['shape'])
+    sign = {'I': [1], 'QU': [1, -1], 'IQU': [1, 1, -1], 'IQUV': [1, 1, -1, -1]}[case['stokes']]
+    return np.diag(np.repeat(np.array(sign, dtype=np.float64), N))
+
+
+def prec_reference(case, cls_name=None):
+    """The matrix of the described operator (of its node of class `cls_name`), float64 NumPy closed form."""
+    import numpy as np
+
+    k = case['op']
+    if cls_name is not None:  # a tagged operator inside a composite
+        k = {'QURotationOperator': 'qurot', 'QURotationTransposeOperator': 'qurotT', 'HWPOperator': 'hwp'}.get(cls_name)
+        if k is None:
+            return None
+    if k == 'qurot':
+        return prec_rotation(case, np)
+    if k in ('qurotT', 'lazy_qurot'):
+        return prec_rotation(case, np).T
+    if k == 'hwp':
+        return prec_hwp(case, np)
+    if k == 'hwp_create':
+        R = prec_rotation(case, np)
+        return R.T @ prec_hwp(case, np) @ R
+    if k == 'polarizer_create':
+        kind, N = case['stokes'], math.prod(case['shape'])
+        P = np.zeros((N, len(kind) * N))
+        for t in range(N):
+            for l, s in enumerate(kind):
+                if s in 'IQ':
+                    P[t, l * N + t] = 0.5
+        return P @ prec_rotation(case, np)
+    v = prec_values(case)
+    if k == 'identity':
+        return np.eye(sum(math.prod(s) for s in case['shapes']))
+    if k == 'homothety':
+        return float(v.reshape(())) * np.eye(sum(math.prod(s) for s in case['shapes']))
+    if k in ('diagonal', 'diagonal_inverse'):
+        d = np.concatenate([np.broadcast_to(v, s).ravel() for s in case['shapes']])
+        return np.diag(1 / d if k == 'diagonal_inverse' else d)
+    if k == 'broadcast_diagonal':  # values (r, n) on a leaf (n,): y[a, i] = v[a, i] x[i]
+        return np.concatenate([np.diag(row) for row in v], axis=0)
+    if k in ('dense', 'obs_matrix'):
+        return v
+    if k == 'toeplitz':
+        n = case['shape'][-1]
+        i, j = np.indices((n, n))
+        d = np.abs(i - j)
+        return np.where(d < len(v), v[np.minimum(d, len(v) - 1)], 0.0)
+    raise ValueError(k)
+
+
+def columns_dt(op, m):
+    """`columns` with basis vectors of the dtype the operator declares for its input; the dtypes of what comes out."""
+    jax, jnp, np = m['jax'], m['jnp'], m['np']
+    leaves, treedef = jax.tree.flatten(op.in_structure())
+    cols, dts = [], set()
+    for li, leaf in enumerate(leaves):
+        for j in range(int(np.prod(leaf.shape, dtype=int))):
+            xs = [np.zeros(l.shape, dtype=l.dtype) for l in leaves]
+            xs[li].reshape(-1)[j] = 1
+            y = op.mv(jax.tree.unflatten(treedef, [jnp.asarray(a) for a in xs]))
+            dts |= {str(l.dtype) for l in jax.tree.leaves(y)}
+            cols.append(np.concatenate([np.asarray(l, dtype=np.float64).ravel() for l in jax.tree.leaves(y)]))
+    M = np.stack(cols, axis=1)
+    if not np.isfinite(M).all():
+        raise FloatingPointError('non-finite entries')
+    return exact(M), sorted(dts)
+
+
+def dtypes_of(tree, m):
+    return sorted({str(l.dtype) for l in m['jax'].tree.leaves(tree)})
+
+
+def observe_prec(case, m):
+    lx, ttags = m['lx'], m['ttags']
+    try:
+        op = build_prec(case, m)
+    except Exception as e:  # noqa: BLE001
+        return {'ctor': type(e).__name__, 'detail': str(e)[:300]}
+    obs = observe_prec_op(op, case, m)
+    if case['op'] in ('hwp_create', 'polarizer_create'):  # composites: every tagged operator in them
+        obs['nodes'] = [observe_prec_op(n, case, m) for n in nodes_of(op, m)
+                        if n is not op and isinstance(n, lx.AbstractLinearOperator) and any(ttags.class_row(type(n)))]
+    return obs
+
+
+def observe_prec_op(op, case, m):
+    jax, np, lx, ttags = m['jax'], m['np'], m['lx'], m['ttags']
+    cls = type(op)
+    obs = {'ctor': 'ok', 'class': cls.__name__, 'row': ttags.class_row(cls)}
+    obs['lx'] = [attempt(lambda t=t: bool(getattr(lx, t)(op))) for t in TAGS]
+    obs['in'], obs['in_dtypes'] = shapes_of(op.in_structure(), m), dtypes_of(op.in_structure(), m)
+    obs['out_declared'] = attempt(lambda: shapes_of(op.out_structure(), m))
+    traced = attempt(lambda: jax.eval_shape(op.mv, op.in_structure()))
+    failed = isinstance(traced, dict) and set(traced) == {'error'}  # (a dict may also be the pytree of the result)
+    obs['out_traced'] = traced if failed else shapes_of(traced, m)
+    obs['out_dtypes'] = traced if failed else dtypes_of(traced, m)
+    T = attempt(lambda: op.T)
+    obs['T_is_self'] = T is op
+    if failed:
+        return obs
+
+    def mat(o):
+        r = attempt(lambda: columns_dt(o, m))
+        return (r, None) if isinstance(r, dict) else r
+
+    obs['matrix'], obs['mv_dtypes'] = mat(op)
+    obs['T_matrix'] = T if isinstance(T, dict) else mat(T)[0]
+    if obs['row'][8] or cls.__name__ in ('HomothetyOperator', 'DiagonalOperator', 'DiagonalInverseOperator'):
+        inv = attempt(lambda: op.I)  # (closed-form inverses only: the generic one is a solver, property C06)
+        obs['I_class'] = inv if isinstance(inv, dict) else type(inv).__name__
+        obs['I_matrix'] = inv if isinstance(inv, dict) else mat(inv)[0]
+    if 'as_matrix' in vars(cls):  # (the class's own closed form; the generic and the lazy-inverse ones: C04, and (a) above)
+        A = attempt(lambda: np.asarray(op.as_matrix(), dtype=np.float64))
+        obs['as_matrix'] = A if isinstance(A, dict) else exact(A) if np.isfinite(A).all() else {'error': 'non-finite entries'}
     return obs
 
 
@@ -610,6 +852,11 @@ class Check(PropertyCheck):
         'jnp.linalg.inv and cos/sin are compared within 1e-9 under x64',
         'correspondence harness harness/c08.py: real furax operators built from the same JSON description as the '
         'model term; oracle with NumPy on the observed matrices',
+        'precision (`prec`) cases - mixed parameter / data dtypes, x64 off, parameters of large magnitude - are outside the '
+        'model (an exact ring has no dtypes): they are judged by the implementation-side oracle alone, against float64 NumPy '
+        'closed forms ([[cos 2a, -sin 2a], [sin 2a, cos 2a]], v I, diag(v), diag(1/v), band[|i-j|], the stored matrix) of the '
+        'parameter values the operator holds, at 64 rounding units of the coarser of the two precisions involved (measured '
+        'on the pinned tree: below 1 unit, stats.prec_max_ulps); `jax.enable_x64(False)` scopes the x64-off cases',
     ]
 
     # ---------------------------------------------------------------------------------- translate
@@ -741,6 +988,7 @@ class Check(PropertyCheck):
         cs += self._toeplitz_sweep(quick)
         cs += self._size_sweeps(quick)
         cs += self._derived_cases(quick)
+        cs += self._prec_cases(quick)
         for c in cs:
             c.setdefault('kind', c['cls'] + ('-malformed' if c.get('malformed') else '-boundary' if c.get('boundary') else ''))
         self.exhaustive = False
@@ -813,6 +1061,68 @@ class Check(PropertyCheck):
         cs.append({'cls': 'moveaxis', 'shape': [3, 4, 2], 'src': [0, 2], 'dst': [1, 0]})
         for c in cs:
             c['kind'] = c['cls'] + '-sizes'
+        return cs
+
+    # ---- (c) x64 on/off x parameter dtype x data dtype x large magnitudes, for every class with floating parameters ----
+    def _prec_cases(self, quick):
+        import random
+
+        rng = random.Random(1000 * self.seed + 8)  # (an own stream: the cases above are not disturbed)
+        on = [(True, p, d) for p in ('float64', 'float32', 'np64', 'py') for d in ('float32', 'float64')]
+        off = [(False, p, 'float32') for p in ('np64', 'float32', 'py')]
+        combos = on + off
+        cs = []
+
+        def add(op, x64, pdt, ddt, params, pshape, **kw):
+            c = {'cls': 'prec', 'op': op, 'x64': x64, 'pdt': pdt, 'ddt': ddt, 'params': params, 'pshape': pshape}
+            c.update(kw)
+            c['kind'] = f'prec-{op}'
+            c['what'] = (f'{op}{"[" + kw["method"] + "]" if "method" in kw else ""} under jax_enable_x64={x64}, parameters held as {pdt}, '
+                         f'data {ddt}')
+            cs.append(c)
+
+        def draw(n, mag, lo=0.3):
+            """n values of magnitude lo*mag..mag with all 53 bits of the mantissa in use, signs alternating from a random one."""
+            s = rng.choice((-1, 1))
+            return [s * (-1) ** i * mag * rng.uniform(lo, 1.0) for i in range(n)]
+
+        # rotations: unwrapped angles (continuously rotating HWP, accumulated position angles) up to 1e5 .. 1e6 rad
+        rshapes = [([3], [3]), ([2, 2], [2]), ([4], [1]), ([3], []), ([2, 3], [2, 1])]
+        k = 0
+        for op in PREC_ROT + ('hwp_create', 'polarizer_create'):
+            for x64, pdt, ddt in combos:
+                for mag in ((1e5, 1e6) if quick or op not in PREC_ROT else (1e5, 1e6, 3e4, 2.0)):
+                    if quick and op not in PREC_ROT and (k := k + 1) % 2:
+                        continue
+                    shape, ashape = ([3], []) if pdt == 'py' else rshapes[rng.randrange(len(rshapes))]
+                    stokes = ('QU', 'IQU', 'IQUV')[rng.randrange(3)] if op != 'polarizer_create' else ('QU', 'IQU')[rng.randrange(2)]
+                    add(op, x64, pdt, ddt, draw(math.prod(ashape), mag), ashape, stokes=stokes, shape=shape)
+        for x64, pdt, ddt in combos:
+            # scalars and diagonals: large and small magnitudes together (1e-6 .. 1e6)
+            for v in draw(2, 1e6, 0.1) + draw(1, 1e-5):
+                if not quick or rng.random() < 0.5:
+                    add('homothety', x64, pdt, ddt, [v], [], shapes=[[2], [3]] if rng.random() < 0.5 else [[2, 2]])
+            if pdt == 'py':
+                continue
+            n = rng.choice((3, 4, 5))
+            vals = draw(n - 2, 1e6) + draw(1, 1e-5) + draw(1, 1.0)
+            rng.shuffle(vals)
+            for op in ('diagonal', 'diagonal_inverse'):
+                add(op, x64, pdt, ddt, vals, [n], shapes=[[n]] if rng.random() < 0.5 else [[2, n], [n]])
+            add('broadcast_diagonal', x64, pdt, ddt, draw(2 * n, 1e5), [2, n], shapes=[[n]])
+            add('dense', x64, pdt, ddt, draw(6, 1e5), [2, 3] if rng.random() < 0.5 else [3, 2])
+            # Toeplitz: a large zero-lag value and a decaying band, every evaluation method
+            for method in ('dense', 'direct', 'fft', 'overlap_save'):
+                n, K = rng.choice(((6, 3), (5, 2), (8, 4), (4, 1)))
+                band = [abs(draw(1, 1e6)[0])] + [b / (i + 2) for i, b in enumerate(draw(K - 1, 1e5))]
+                add('toeplitz', x64, pdt, ddt, band, [K], shape=[n], method=method)
+        for x64 in (True, False):
+            for dt in ('float32', 'float64'):
+                add('obs_matrix', x64, dt, dt, draw(9, 1e5), [3, 3])
+                if x64 or dt == 'float32':  # classes without parameters: the data dtype alone
+                    add('identity', x64, dt, dt, [], [0], shapes=[[2], [3]])
+                    for stokes in STOKES:
+                        add('hwp', x64, dt, dt, [], [0], stokes=stokes, shape=[2])
         return cs
 
     # ---- (b) tagged operators obtained through the public construction paths ----
@@ -967,7 +1277,11 @@ class Check(PropertyCheck):
             'of sizes for the other tagged classes; derived: expressions over those bases through the public '
             'construction paths (s*A, A*s, A/s with 8 scalar and 10 non-scalar factor forms, -A, +A, A-B, -(A+B), .T, .I, '
             '.T.T, .I.I, .T.I, A@B, block diagonals, reduce() of P.T@P / scaled / rotation / HWP / inverse products, '
-            'HWPOperator.create), every tagged operator in the result being observed; distinct by canonical JSON. Non-trivial: the '
+            'HWPOperator.create), every tagged operator in the result being observed; prec: every class with floating '
+            'parameters x jax_enable_x64 on/off x parameters held as float32 / float64 JAX arrays, NumPy float64 arrays or '
+            'Python floats x data float32 / float64, parameter values drawn (own seeded stream) with full float64 mantissas at '
+            'large magnitudes (angles 3e4..1e6 rad, scalars/diagonals 1e-6..1e6, Toeplitz bands 1e5..1e6 with each of the 4 '
+            'methods), shapes / Stokes kinds drawn per case; distinct by canonical JSON. Non-trivial: the '
             'class declares at least one query, or the instance belongs to an untagged class whose matrix has a '
             'property it could have been tagged with.'
         )
@@ -975,6 +1289,8 @@ class Check(PropertyCheck):
     def nontrivial(self, case, obs):
         if isinstance(obs, dict) and case['cls'] == 'derived':
             return obs.get('ctor') != 'ok' or bool(obs.get('nodes'))
+        if isinstance(obs, dict) and case['cls'] == 'prec':
+            return obs.get('ctor') != 'ok' or any(obs.get('row') or []) or bool(obs.get('nodes')) or bool(case['params'])
         return isinstance(obs, dict) and (any(obs.get('row') or []) or obs.get('ctor') not in (None, 'ok') or case.get('untagged'))
 
     # ------------------------------------------------------------------------------------ impl side
@@ -1211,7 +1527,117 @@ class Check(PropertyCheck):
             return f'unexpected observation {obs!r}'
         if case['cls'] == 'derived':
             return self._oracle_derived(case, obs)
+        if case['cls'] == 'prec':
+            return self._oracle_prec(case, obs)
         return self._oracle_op(case, obs)
+
+    def _oracle_prec(self, case, obs):
+        """Precision cases: the tags, op.T and op.I judged at the rounding level of the dtypes the case is evaluated in
+        (parameters WIDER than the data: the rounding level of the data), against the float64 closed form."""
+        if obs.get('ctor') != 'ok':
+            return f'constructor raised {obs["ctor"]} on legal parameters ({obs.get("detail")})'
+        msgs = self._oracle_prec_op(case, obs, prec_reference(case), obs['class'])
+        for k, n in enumerate(obs.get('nodes', [])):
+            msgs += [f'operator #{k} ({n["class"]}) of the composite: {s}'
+                     for s in self._oracle_prec_op(case, n, prec_reference(case, n['class']), n['class'])]
+        return f'{case["what"]}: ' + '; '.join(msgs) if msgs else None
+
+    def _oracle_prec_op(self, case, obs, R, name):
+        import numpy as np
+
+        row = obs['row']
+        msgs = []
+        if obs['lx'] != row[:7]:
+            msgs.append(f'lineax predicates on the instance {dict(zip(TAGS, obs["lx"]))} differ from the class row {row[:7]}')
+        if row[4] and not obs['T_is_self']:
+            msgs.append('declared symmetric but op.T is not op')
+        if obs['T_is_self'] != row[7]:
+            msgs.append(f'op.T is op = {obs["T_is_self"]} but transpose_returns_self of the class is {row[7]}')
+        if isinstance(obs['out_traced'], dict):
+            return msgs + [f'mv raises {obs["out_traced"]["error"]} on an input of structure in_structure() = {obs["in"]} {obs["in_dtypes"]}']
+        peff, deff = prec_eff(case)
+        rot = name in ('QURotationOperator', 'QURotationTransposeOperator') or case['op'] == 'lazy_qurot'
+        if row[9]:
+            if obs['out_declared'] != obs['in'] or obs['out_traced'] != obs['in']:
+                msgs.append(f'declared square but out_structure() is {obs["out_declared"]} and mv returns {obs["out_traced"]} '
+                            f'for in_structure() = {obs["in"]}')
+            # dtypes: (DESIGN 10.4) parameters wider than the data widen what a @square class returns - counted, not a
+            # finding - except for the rotations, whose angles no longer widen inexact data; nothing may NARROW the data
+            wide = 'float64' if 'float64' in (peff, deff) else 'float32'
+            allowed = [obs['in_dtypes']] if rot or case['pdt'] == 'py' else [obs['in_dtypes'], [wide]]
+            for what, got in (('traced', obs['out_dtypes']), ('returned', obs['mv_dtypes'])):
+                if got is not None and got not in allowed:
+                    msgs.append(f'declared square but the {what} result of mv has dtype {got} for data of dtype {obs["in_dtypes"]} '
+                                f'(parameters evaluated in {peff})')
+                    break
+            if obs['out_dtypes'] != obs['in_dtypes']:
+                self.stats['boundary_wider_dtype'] = self.stats.get('boundary_wider_dtype', 0) + 1
+        if isinstance(obs['matrix'], dict):
+            return msgs + [f'mv raises {obs["matrix"]["error"]} on a basis vector of in_structure()']
+        M = tofloat(obs['matrix'])
+        if R is None or M.shape != R.shape:
+            return msgs + [f'the matrix of mv is {M.shape[0]}x{M.shape[1]}, expected {None if R is None else R.shape}']
+        # rounding level: the coarser of the precision the parameters are evaluated in and the precision of the data
+        eps = max(PREC_EPS[peff], PREC_EPS[deff])
+        mixing = case['op'] in PREC_MIXING or rot or case.get('method') in ('fft', 'overlap_save')
+        scale = np.abs(R).max(initial=0.0)
+        unit = eps * ((np.abs(R) + scale) if mixing else np.abs(R))  # (not mixing: structural zeros are exact zeros)
+        worst = [0.0]
+
+        def close(what, A, B, U, factor=1):
+            if A.shape != B.shape:
+                msgs.append(f'{what}: a {A.shape} matrix, expected {B.shape}')
+                return
+            err = np.abs(A - B)
+            with np.errstate(divide='ignore', invalid='ignore'):
+                ratio = np.where(err > 0, err / (factor * U), 0.0)
+            worst[0] = max(worst[0], float(ratio.max(initial=0.0)))
+            bad = np.argwhere(err > factor * PREC_C * U)
+            if len(bad):
+                a, b = bad[0]
+                msgs.append(f'{what}: entry ({a},{b}) = {float(A[a, b])!r}, expected {float(B[a, b])!r} (rounding level {eps:.1e}; '
+                            f'worst entry off by {err.max():.3g})')
+
+        mode = f'{"x64" if case["x64"] else "x32"}, parameters {case["pdt"]}, data {deff}'
+        close(f'matrix of mv differs from the closed form ({mode})', M, R, unit)
+        msgs += check_matrix('matrix of mv', M, row, PREC_C * eps * max(scale, 1.0) if mixing else 0.0)
+        if isinstance(obs['T_matrix'], dict):
+            msgs.append(f'op.T cannot be applied: {obs["T_matrix"]}')
+        else:
+            MT = tofloat(obs['T_matrix'])
+            if MT.shape != M.T.shape:
+                msgs.append(f'op.T acts as a {MT.shape} matrix, the transposed matrix of mv is {M.T.shape}')
+            else:
+                bad = np.argwhere(np.abs(MT - M.T) > 2 * PREC_C * unit.T)
+                if len(bad):
+                    a, b = bad[0]
+                    msgs.append(f'op.T does not act as the transposed matrix of mv ({mode}): dense(op.T)[{a},{b}] = {float(MT[a, b])!r} '
+                                f'but M[{b},{a}] = {float(M[b, a])!r}')
+                close(f'matrix of op.T differs from the transposed closed form ({mode})', MT, R.T, unit.T)
+        if 'I_matrix' in obs:
+            if isinstance(obs['I_matrix'], dict):
+                msgs.append(f'op.I cannot be applied: {obs["I_matrix"]}')
+            else:
+                MI = tofloat(obs['I_matrix'])
+                n = M.shape[0]
+                G = MI @ M if MI.shape == M.T.shape else None
+                if G is None:
+                    msgs.append(f'op.I acts as a {MI.shape} matrix')
+                else:
+                    bad = np.argwhere(np.abs(G - np.eye(n)) > 4 * PREC_C * eps)
+                    if len(bad):
+                        a, b = bad[0]
+                        msgs.append(f'dense(op.I) @ M is not the identity: entry ({a},{b}) = {float(G[a, b])!r} (rounding level {eps:.1e})')
+                    if row[8] and not isinstance(obs['T_matrix'], dict) and np.abs(MI - tofloat(obs['T_matrix'])).max(initial=0) > 0:
+                        msgs.append('op.I does not act as op.T')
+        if 'as_matrix' in obs:
+            if isinstance(obs['as_matrix'], dict):
+                msgs.append(f'as_matrix() raises {obs["as_matrix"]}')
+            else:
+                close('as_matrix() differs from the closed form', tofloat(obs['as_matrix']), R, unit, 8 if 'Lazy' in name else 1)
+        key = 'prec_max_ulps'
+        self.stats[key] = max(self.stats.get(key, 0.0), round(worst[0], 2))
+        return msgs
 
     def _oracle_derived(self, case, obs):
         """Everything tagged in what a public construction path returns is judged like a direct instance."""
